@@ -906,6 +906,9 @@ class DiskRefsContainer(RefsContainer):
         self._packed_refs: dict[Ref, ObjectID] | None = None
         self._peeled_refs: dict[Ref, ObjectID] | None = None
         self._packed_refs_key: _PackedRefsKey | None = None
+        # Whether packed-refs carries the "peeled" trait, i.e. whether a tag
+        # listed there without a peeled value is known not to be annotated
+        self._packed_peeled_trait = True
 
     def __repr__(self) -> str:
         """Return string representation of DiskRefsContainer."""
@@ -1025,19 +1028,21 @@ class DiskRefsContainer(RefsContainer):
             self._packed_refs = {}
             self._peeled_refs = {}
             self._packed_refs_key = None
+            self._packed_peeled_trait = True
             path = os.path.join(self.path, b"packed-refs")
             try:
                 f = GitFile(path, "rb")
             except FileNotFoundError:
                 return {}
             with f:
-                first_line = next(iter(f)).rstrip()
+                first_line = next(iter(f), b"").rstrip()
                 if first_line.startswith(b"# pack-refs") and b" peeled" in first_line:
                     for sha, name, peeled in read_packed_refs_with_peeled(f):
                         self._packed_refs[name] = sha
                         if peeled:
                             self._peeled_refs[name] = peeled
                 else:
+                    self._packed_peeled_trait = False
                     f.seek(0)
                     for sha, name in read_packed_refs(f):
                         self._packed_refs[name] = sha
@@ -1065,6 +1070,7 @@ class DiskRefsContainer(RefsContainer):
                 # reread cached refs from disk, while holding the lock
                 packed_refs = self.get_packed_refs().copy()
                 peeled_refs = dict(self._peeled_refs or {})
+                claim_peeled = self._packed_peeled_trait
 
                 for ref, target in new_refs.items():
                     # sanity check
@@ -1075,12 +1081,24 @@ class DiskRefsContainer(RefsContainer):
                         # the peeled value on record belongs to the old value
                         peeled_refs.pop(ref, None)
 
+                    if (
+                        target is not None
+                        and ref.startswith(LOCAL_TAG_PREFIX)
+                        and packed_refs.get(ref) != target
+                        and ref not in peeled_refs
+                    ):
+                        # Might be an annotated tag and we cannot peel it here.
+                        # Under the "peeled" trait a tag without a peeled
+                        # value is taken for a lightweight one, so do not
+                        # claim the trait for this file.
+                        claim_peeled = False
+
                     if target is not None:
                         packed_refs[ref] = target
                     else:
                         packed_refs.pop(ref, None)
 
-                write_packed_refs(f, packed_refs, peeled_refs)
+                write_packed_refs(f, packed_refs, peeled_refs if claim_peeled else None)
 
             # Only once the new packed-refs file is in place, remove any
             # loose refs it supersedes (the other way round, a crash in
@@ -1113,6 +1131,9 @@ class DiskRefsContainer(RefsContainer):
             or name not in self._packed_refs
         ):
             # No cache: no peeled refs were read, or this ref is loose
+            return None
+        if not self._packed_peeled_trait:
+            # packed-refs does not tell annotated and lightweight tags apart
             return None
         if self.read_loose_ref(name) is not None:
             # A loose ref overrides the packed entry of the same name; what
@@ -1226,7 +1247,9 @@ class DiskRefsContainer(RefsContainer):
             del packed_refs[name]
             if peeled_refs is not None:
                 peeled_refs.pop(name, None)
-            write_packed_refs(f, packed_refs, peeled_refs)
+            write_packed_refs(
+                f, packed_refs, peeled_refs if self._packed_peeled_trait else None
+            )
             f.close()
         finally:
             if not f.closed:
@@ -1529,6 +1552,7 @@ class DiskRefsContainer(RefsContainer):
                 # or are noticed when the loose ref is pruned below.
                 packed_refs = self.get_packed_refs().copy()
                 peeled_refs = dict(self._peeled_refs or {})
+                claim_peeled = self._packed_peeled_trait
                 for ref in self._iter_loose_refs():
                     if not (all or ref.startswith(LOCAL_TAG_PREFIX)):
                         continue
@@ -1543,10 +1567,20 @@ class DiskRefsContainer(RefsContainer):
                     if ref in packed_refs and packed_refs[ref] != value:
                         # the peeled value on record belongs to the old value
                         peeled_refs.pop(ref, None)
+                    if (
+                        ref.startswith(LOCAL_TAG_PREFIX)
+                        and packed_refs.get(ref) != value
+                        and ref not in peeled_refs
+                    ):
+                        # Might be an annotated tag and we cannot peel it
+                        # here: see add_packed_refs
+                        claim_peeled = False
                     packed_refs[ref] = ObjectID(value)
                     to_prune[ref] = ObjectID(value)
                 if to_prune:
-                    write_packed_refs(f, packed_refs, peeled_refs)
+                    write_packed_refs(
+                        f, packed_refs, peeled_refs if claim_peeled else None
+                    )
                     f.close()
             finally:
                 f.abort()
